@@ -28,6 +28,12 @@ use digest::Digest;
 use rug::{integer::Order, Complete, Integer};
 use serde::{Deserialize, Serialize};
 
+/// Bit length of the blinding for a secret of `secret_bits` bits: the blinding has to cover
+/// secret * challenge (challenge = hash output, `lin` bits) with a statistical margin of lin/2 bits.
+fn blinding_bits<CS: CLCiphersuite>(secret_bits: u32) -> u32 {
+    secret_bits + CS::lin + CS::lin / 2
+}
+
 #[derive(Clone, PartialEq, Eq, Debug, Serialize, Deserialize)]
 pub(crate) struct NISP2Commitments {
     challenge: Integer,
@@ -65,11 +71,11 @@ impl NISP2Commitments {
         // Initialize multiple random values, equivalent to secrets m_i and stored in a list
         let mut omega: Vec<Integer> = Vec::new();
         for _i in unrevealed_message_indexes {
-            omega.push(random_bits(CS::lm));
+            omega.push(random_bits(blinding_bits::<CS>(CS::lm)));
         }
 
-        let mu_1 = random_bits(CS::ln);
-        let mu_2 = random_bits(CS::ln);
+        let mu_1 = random_bits(blinding_bits::<CS>(CS::ln));
+        let mu_2 = random_bits(blinding_bits::<CS>(CS::ln));
 
         let mut w_1 = Integer::from(1);
         let mut w_2 = Integer::from(1);
@@ -224,8 +230,9 @@ impl NISPSecrets {
         CS: CLCiphersuite,
         CS::HashAlg: Digest,
     {
-        let r1 = random_bits(CS::lm);
-        let r2 = random_bits(CS::ln);
+        // the secret may be an attribute (lm bits) or a commitment randomness (ln bits)
+        let r1 = random_bits(blinding_bits::<CS>(CS::ln));
+        let r2 = random_bits(blinding_bits::<CS>(CS::ln));
 
         let t = (Integer::from(g1.pow_mod_ref(&r1, &n1).unwrap())
             * Integer::from(h1.pow_mod_ref(&r2, &n1).unwrap()))
@@ -296,10 +303,10 @@ impl NISPMultiSecrets {
 
         let mut r1: Vec<Integer> = Vec::new();
         for _ in unrevealed_message_indexes {
-            r1.push(random_bits(CS::lm));
+            r1.push(random_bits(blinding_bits::<CS>(CS::lm)));
         }
 
-        let r2 = random_bits(CS::ln);
+        let r2 = random_bits(blinding_bits::<CS>(CS::ln));
 
         let h1 = &signer_pk.b;
         let n1 = &signer_pk.N;
@@ -452,15 +459,16 @@ impl NISPSignaturePoK {
         );
         let (_Ce, re) = (C_Ce.value(), C_Ce.randomness());
 
+        // r_i blinds: rw | rw*e | rx | e (ln bits suffice) | s (= r + r', ls + 1 bits) | w | w*e | re
         let (r_1, r_2, r_3, r_4, r_6, r_7, r_8, r_9) = (
+            random_bits(blinding_bits::<CS>(CS::ln)),
+            random_bits(blinding_bits::<CS>(CS::ln + CS::le)),
+            random_bits(blinding_bits::<CS>(CS::ln)),
             random_bits(CS::ln),
-            random_bits(CS::ln),
-            random_bits(CS::ln),
-            random_bits(CS::ln),
-            random_bits(CS::ln),
-            random_bits(CS::ln),
-            random_bits(CS::ln),
-            random_bits(CS::ln),
+            random_bits(blinding_bits::<CS>(CS::ls + 1)),
+            random_bits(blinding_bits::<CS>(CS::ln)),
+            random_bits(blinding_bits::<CS>(CS::ln + CS::le)),
+            random_bits(blinding_bits::<CS>(CS::ln)),
         );
 
         let mut r_5: Vec<Integer> = Vec::new();
